@@ -53,9 +53,11 @@ def expr_stream(rng: random.Random, tier: str, n_random: int, depth_q: int = 4, 
             out += gen.twin_patterns(g)
     if rules and set(kinds) >= set(gen.ALL):
         out += gen.rich_shapes(rng, max(40, n_random // 3))
+        out += gen.unary_chains(rng, max(30, n_random // 4))
         from .core import changed_classes
         focus = [k for k in changed_classes() if k in kinds]
         if focus:       # the classes whose source changed: shapes rooted at them, bare and inside random parents
+            out += gen.unary_chains(rng, 1200 if tier == "quick" else 6000, top=focus)
             g = gen.Gen(rng, names=names, kinds=kinds)
             for origin, e in gen.rich_shapes(rng, max(60, n_random // 2), classes=focus):
                 out.append(("changed:" + origin, e))
